@@ -16,6 +16,11 @@ from lib.common import Run, hx, unhx
 from lib.proggen import ProgGen
 
 CORPUS = [  # (cfg, [sources...]) — past crashes and their neighbours; runs first
+    # attribute reads / writes on computed values in every state of their lazily created attribute table: never evaluated, evaluated,
+    # attribute set, restored; through `&v.x`, `?? `, inside functions and templates
+    ("-", ["&v = 1 + 2; &v.x"]), ("-", ["(&v.bonus ?? 10) + v", "&v = 4; (&v.bonus ?? 10) + v"]), ("-", ["&v = 1 + 2; v; &v.x"]), ("-", ["&v = 1; &v.y = 4; &v.x"]),
+    ("-", ["&v = 2d6; [&v.a, &v.b]; `{&v.c}`"]), ("-", ["&v = 1; func f(){ &v.q }; f()"]), ("-", ["&v = this.k; &v.k ?? 1; v"]), ("-", ["&v = 1; x = &v; x.zz"]),
+    ("-", ["&v = 1", "&v.x", "&v.x = 2", "&v.x"]), ("-", ["&a = 1; &b = &a.x ?? 2; b + (&b.y ?? 3)"]),
     ("c", ["b(1.5)"]), ("c", ["p('a')"]), ("w", ["2a(1.5)"]), ("w", ["(1.5)a5"]), ("w", ["2a5m(1.5)"]), ("w", ["2a5k('x')"]),
     ("d", ["2c(1.5)"]), ("d", ["(1.5)c5"]), ("d", ["2c5m(null)"]),
     ("-", ["[].rand()"]), ("-", ["x=[1,2,3]; x.randSize(5)"]), ("-", ["x=[1,2,3]; x.randSize(-1)"]), ("-", ["[1,2,3].kh('a')"]),
